@@ -146,7 +146,7 @@ func newView(r *real.Runner, ctx sdk.Context) *view {
 	}
 	a.AuthzKeeper.IterateGrants(ctx, func(granter, grantee sdk.AccAddress, g authz.Grant) bool {
 		ga, ok := g.Authorization.GetCachedValue().(*authz.GenericAuthorization)
-		if gi, ge := idxB(granter), idxB(grantee); ok && gi >= 0 && ge >= 0 && kindOf[ga.Msg] != "" {
+		if gi, ge := idxB(granter), idxB(grantee); ok && (gi >= 0 || gi <= -10) && ge >= 0 && kindOf[ga.Msg] != "" {
 			v.grants = append(v.grants, grant{gi, ge, kindOf[ga.Msg]})
 		}
 		return false
